@@ -77,6 +77,8 @@ def ctype(t):
 
 
 def wrap(v, ct):
+    if not isinstance(v, int):
+        return v              # symbolic tokens handed out by hooks (and floats) pass through unchanged
     if ct[0] == "int":
         bits, signed = ct[1], ct[2]
         if bits == 1:
